@@ -1293,6 +1293,26 @@ fn build_space(tier: Tier, ci: usize) -> (Vec<Case>, String) {
     }
 }
 
+/// The enumerated space in words (the sizes next to it in the evidence are measured).
+fn space_statement(tier: Tier) -> Vec<String> {
+    let thorough = tier == Tier::Thorough;
+    let mut v = vec![
+        "local configurations (8): default (WebRTC, no media_capabilities); audio-only-caps (PCMU/PCMA/telephone-event, no video/application caps); custom-pt (opus=109, PCMU=0, telephone-event=126, VP8=100+RTX=101, H264=107, sctp-port 5001); rtp-mode (TransportMode::Rtp, MediaCapabilities::default()); srtp-mode (TransportMode::Srtp); legacy-sip (Rtp + SdpCompatibilityMode::LegacySip); pre-transceivers (default + audio sendrecv and video recvonly transceivers added before the offer); pre-datachannel (default + create_data_channel before the offer). Offers are rendered in the transport flavour of the configuration: UDP/TLS/RTP/SAVPF with ice-ufrag/ice-pwd/fingerprint/setup for WebRTC, RTP/AVP with c=/ports for Rtp, RTP/SAVP with a=crypto for Srtp.".to_string(),
+        "section alphabet: kind {audio, video, application (UDP/DTLS/SCTP webrtc-datachannel), image (udptl t38)} x mid {numeric, token, absent}; audio/video additionally x codec list (audio: PCMU only | opus+PCMU+telephone-event | unknown-only; video: VP8+RTX | H264(102)+RTX,VP8(96)+RTX | unknown-only | H264(96)+RTX,VP8(98)+RTX) x extmap {none | ids 1-3 | ids 1-5 colliding with rustrtc's own default ids, video also with rid/repaired-rid and a two-rid simulcast | ids 14/15 with extmap-allow-mixed} x direction {sendrecv, sendonly, recvonly, inactive} x rtcp-mux {yes, no}".to_string(),
+        "block A (one section): the full section alphabet (678 letters) x BUNDLE {group of all mids, none} x, for WebRTC-flavour configurations, setup {actpass, active, passive, holdconn} x ICE/DTLS attributes {in the m-section, at session level}".to_string(),
+    ];
+    if thorough {
+        v.push("block B (two sections): all ordered pairs over 438 letters (section alphabet with video codec lists {VP8+RTX, H264(102)+VP8(96), H264(96)+VP8(98)} and extmap {none, ids 1-3, colliding}) x BUNDLE {all, none} x (WebRTC flavour) setup {actpass, active, passive}".to_string());
+        v.push("block C (3..6 sections): all words of length 3,4,5,6 over 6 letters {audio sendrecv, audio recvonly, video sendonly, video inactive, application, image} (first codec list, extmap ids 1-3, rtcp-mux, setup actpass) x one mid scheme per offer {numeric, token, absent} x BUNDLE {all, none}, on all 8 configurations".to_string());
+        v.push("block D (two negotiations): base offers = block A's 678 one-section letters and all ordered pairs over 8 letters (kind x mid {numeric, absent}, audio opus+PCMU+telephone-event / video VP8+RTX, extmap ids 1-3, sendrecv, rtcp-mux), each x BUNDLE {all, none}, setup actpass; the first answer is applied with set_local_description and a second offer = one of 7 change operators {identical, direction flip (sendrecv<->sendonly), next codec list, next extmap set, append a section, toggle rtcp-mux, toggle BUNDLE} of the first is negotiated".to_string());
+    } else {
+        v.push("block B (two sections): all ordered pairs over 54 letters (audio codec {PCMU, opus+PCMU+telephone-event}, video codec {VP8+RTX, H264(96)+VP8(98)}, extmap {none, colliding}, direction {sendrecv, sendonly}, rtcp-mux yes, mid 3; application/image x mid 3) x BUNDLE {all, none} x (WebRTC flavour) setup {actpass, active}".to_string());
+        v.push("block C (3..6 sections): all words of length 3 and 4 over 6 letters {audio sendrecv, audio recvonly, video sendonly, video inactive, application, image} on all 8 configurations, and of length 5 and 6 over 4 letters {audio sendrecv, video sendonly, application, image} on default, rtp-mode, srtp-mode, legacy-sip (first codec list, extmap ids 1-3, rtcp-mux, setup actpass) x one mid scheme per offer {numeric, token, absent} x BUNDLE {all, none}".to_string());
+        v.push("block D (two negotiations): base offers = one section over 168 letters (audio 3 codec lists / video {VP8+RTX, H264(102)+VP8(96), H264(96)+VP8(98)}, extmap {none, ids 1-3, colliding}, direction {sendrecv, sendonly, inactive}, rtcp-mux yes, mid 3; application/image x mid 3) and all ordered pairs over 8 letters (kind x mid {numeric, absent}, audio opus+PCMU+telephone-event / video VP8+RTX, extmap ids 1-3, sendrecv, rtcp-mux), each x BUNDLE {all, none}, setup actpass; the first answer is applied with set_local_description and a second offer = one of 7 change operators {identical, direction flip (sendrecv<->sendonly), next codec list, next extmap set, append a section, toggle rtcp-mux, toggle BUNDLE} of the first is negotiated".to_string());
+    }
+    v
+}
+
 fn case_texts(c: &Case) -> Vec<String> {
     let fl = CFGS[c.cfg].flavor;
     let mut v = vec![render(&c.offer, fl, 2)];
@@ -1472,8 +1492,8 @@ fn main() {
             continue;
         }
         let (cases, d) = build_space(cli.tier, ci);
-        eprintln!("C08: {d}");
-        descriptions.push(d);
+        let t0 = std::time::Instant::now();
+        descriptions.push(d.clone());
         let part = cases
             .par_iter()
             .enumerate()
@@ -1495,6 +1515,7 @@ fn main() {
             .map(|(_, _, a)| a)
             .reduce(Agg::default, Agg::merge);
         agg = agg.merge(part);
+        eprintln!("C08: {d} [{:.1}s]", t0.elapsed().as_secs_f64());
         for i in [0usize, cases.len() / 2 + 1, cases.len() - 1] {
             let c = &cases[i];
             samples.push(json!({"case": offset + i, "cfg": CFGS[c.cfg].name, "block": c.block, "offer": offer_json(&c.offer), "change": c.change.map(|k| CHANGES[k]), "sdp": case_texts(c)[0]}));
@@ -1524,7 +1545,9 @@ fn main() {
     rep.set("descriptions_roundtripped", agg.roundtripped);
     rep.set("roundtrip_equal_only_modulo_transport_attribute_order", agg.strict_mismatch);
     rep.set("cases_per_block", json!(agg.per_block));
-    rep.set("space", json!(descriptions));
+    let mut space = space_statement(cli.tier);
+    space.extend(descriptions.iter().map(|d| format!("measured sizes: {d}")));
+    rep.set("space", json!(space));
     rep.set("exhaustive", only_cfg.is_none());
     rep.set("caps_hit", json!([]));
     rep.set("panics", json!(agg.panics.iter().map(|(k, (n, i))| json!({"panic": k, "hits": n, "first_case": i})).collect::<Vec<_>>()));
